@@ -731,7 +731,7 @@ META = {
              "consistency), decompose_rws (R W S = A, R proper rotation, W unit upper triangular, S diagonal, with the Cholesky "
              "square roots universally quantified), affine_from_pts as normal-equation solution reproduces any affine map.  "
              "Model tied to the code by exact differential execution on the exactness domain plus direct predicates."),
-    "note": ("Trusted: Coq kernel; the hand-written model coq/Model/MathH.v (validated by the correspondence run); floats are "
+    "note": ("Loaded-but-unused axioms: Proofs/MathHLinear.v imports Nsatz, which loads Coq.Reals and FunctionalExtensionality; coqchk -o therefore lists functional_extensionality_dep, sig_not_dec, sig_forall_dec and classic for the closure although Print Assumptions reports every C20 theorem closed under the global context.  Trusted: Coq kernel; the hand-written model coq/Model/MathH.v (validated by the correspondence run); floats are "
              "modelled as exact rationals (binary64 rounding NOT modelled; correspondence restricted to inputs on which every float "
              "step is exact, checked dynamically); non-finite inputs only tested (pass-through).  Oracles, NOT proved: numpy lstsq "
              "(affine_from_pts is proved for the exact normal-equation/Cramer solution; Poly2d fit/evaluate/with_input_transform "
